@@ -364,7 +364,7 @@ Lemma tracked_token_kept m s s' d t : IdInv s -> tok_step m s s' -> ~ authorised
 Proof.
   intros I TS Hna Hc0 Ht.
   destruct (token_by_minunit_spec s d t I Ht) as (sy & Hm & Hg & Hsy & Hmu).
-  destruct TS as [Htk Hmn _ | sym0 t0 t0' Hg0 Htk Hmn Hid Hgov Hcs | t0 Hs0 Hm0 Htk Hmn _].
+  destruct TS as [Htk Hmn _ | sym0 t0 t0' Hg0 Htk Hmn Hid Hgov Hcs | t0 Hs0 Hm0 Htk Hmn _ _].
   - rewrite (token_by_minunit_same _ _ _ Htk Hmn). assumption.
   - unfold token_by_minunit, token_by_symbol. rewrite Hmn, Hm, Htk, get_set.
     destruct (eqb sy sym0) eqn:E; [|assumption].
